@@ -36,7 +36,7 @@ def generate(tier, seed):
         delays = (i % 2 == 0)
         counters = (i % 4 != 3)
         T = rnd.choice([1.0, 2.0, 4.0])
-        sp = gen.bounded_network(rnd, T, counters=counters, delays=delays, nonmass_consumers=nonmass, cap=150.0)
+        sp = gen.bounded_network(rnd, T, counters=counters, delays=delays, nonmass_consumers=nonmass, cap=150.0, share_prob=0.35)
         if i % 7 == 0 and not counters:
             # a reaction consuming every species, placed last
             sp["reactions"].append({"type": "massaction", "reactants": list(sp["species"]), "products": [],
@@ -80,6 +80,8 @@ def run_case(case):
     viol = util.ViolList()
     sp = case["spec"]
     M = specmod.build_model(sp, "ctor")
+    if any(r.get("share") for r in sp["reactions"]):
+        C["networks_with_shared_parameter_dict"] += 1
     species = M.get_species_list()
     idx = M.get_species2index()
     nsp, nrx = len(species), len(sp["reactions"])
